@@ -120,6 +120,9 @@ def run_shard(sh, ctx):
 				s_, u_ = J_.dist_su(sa, sb)
 				return float(np.uint32(J_.expected_bits(s_, u_)).view('f4'))
 			check_matrix(ctx, open(out, newline='').read(), labels, labels, dtw, w_, 'dist files/files with equal labels')
+		code_, *_ = clidrv.run_inproc(['dist', '-o', base / 'fail.csv', '--no-progress', '-q', G.items[0]['path'], '--rs', base / 'does-not-exist.gs'])
+		code2_, *_ = clidrv.run_inproc(['dist', '-o', base / 'fail2.csv', '--no-progress', '-k', k, '-q', G.items[0]['path'], '-r', G.items[0]['path']])
+		ctx.count('failing_commands_interleaved', int(code_ != 0) + int(code2_ != 0))
 		for qch in QCH:
 			for rch in RCH:
 				for trial in range(2 if sh['nrounds'] > 2 else 1):
